@@ -128,6 +128,13 @@ def h_limit(ctx, dk):
     return "ok"
 
 
+def h_limit_then_set(ctx, dk):
+    with ctx.namespace("l."):
+        a = h_limit(ctx, dk)
+    b = h_set_tc(ctx, dk)
+    return "%s | %s" % (a, b)
+
+
 def h_query(ctx, group):
     members = list(colour.QueryColourValueDTR)
     lo, hi = group
@@ -139,6 +146,9 @@ def h_query(ctx, group):
     fl = ctx.fresh_choice("fault_lsb", 3)
     u = _unit(ctx, a, 0)
     u.colour_values = {int(sel.value): v}
+    # the opening QUERY ACTUAL LEVEL is answered with whatever level the unit is at, incl. 255 (lamp
+    # failure / start-up): that answer says nothing about the colour value
+    u.level = ctx.fresh("level", 0, 255)
 
     def fault(n, cmd, raw):
         which = None
@@ -200,6 +210,11 @@ def h_query_badsel(ctx):
 def cases(tier):
     cs = [Case("set-tc-%s" % DESTS[k], h_set_tc, {"dk": k}) for k in range(4)]
     cs += [Case("limit-%s" % DESTS[k], h_limit, {"dk": k}) for k in range(4)]
+    # the same sequence twice in one process, against units with independent (stale) DTR contents: nothing
+    # remembered from the first run may be relied on in the second
+    cs += [Case("set-tc-twice-%s" % DESTS[k], h_set_tc, {"dk": k}, repeat=2) for k in (0, 2)]
+    cs += [Case("limit-twice-%s" % DESTS[k], h_limit, {"dk": k}, repeat=2) for k in (0, 3)]
+    cs += [Case("limit-then-set-%s" % DESTS[k], h_limit_then_set, {"dk": k}) for k in (0,)]
     n = len(list(colour.QueryColourValueDTR))
     step = 12
     for lo in range(0, n, step):
